@@ -5,7 +5,7 @@
 # Date   : Feb 13, 2019
 """Helper methods for RTLIR."""
 
-from pymtl3.datatypes import is_bitstruct_class
+from pymtl3.datatypes import Bits, is_bitstruct_class
 
 from ..rtype.RTLIRDataType import get_rtlir_dtype
 
@@ -35,6 +35,13 @@ def get_component_full_name( c_rtype ):
       if is_bitstruct_class(obj):
         return get_rtlir_dtype( obj() ).get_name()
       return obj.__name__
+    # str() of a string, of a Bits object and of an int can be the same
+    # text ('1', Bits4(1), 1; Bits8(0x10) prints as '10') while the
+    # components constructed from them differ
+    if isinstance( obj, str ):
+      return repr( obj )
+    if isinstance( obj, Bits ):
+      return f"Bits{obj.nbits}_{int(obj)}"
     return str( obj )
 
   comp_name = c_rtype.get_name()
